@@ -165,6 +165,12 @@ func isZero(t term) bool { k, ok := t.isConst(); return ok && k == 0 }
 func runC01(c *Ctx) {
 	p := c.P
 	pos := func(in ssa.Instruction) string { return p.Pos(in.Pos()) }
+	// R16 (shared with C12.R1): the calls that move the implicit position hold the File exclusively, so that two of them
+	// on one File cannot both start at the same offset
+	if fileT := p.NamedType(p.Sftp, "File"); fileT != nil {
+		checkFileLockKind(c, "R16", exportedFileMethods(p, fileT), map[string]bool{"(*File).Read": true, "(*File).Write": true, "(*File).ReadFrom": true, "(*File).WriteTo": true})
+		c.floor("R16", 4)
+	}
 	isOffsetField := func(key string) bool { return strings.HasPrefix(key, "fld:") && strings.HasSuffix(key, ".offset") }
 
 	// start offset of a transfer: the `off` parameter of the enclosing File method, or a load of f.offset
@@ -971,6 +977,51 @@ func runC01Server(c *Ctx) {
 					clamp = true
 				}
 			}
+		}
+		// and what it clamps to is, at every call, the server's configured maximum payload — not the other uint32 that
+		// travels next to it (the request's order number): followed from the clamp parameter through the callers
+		var clampPrm *ssa.Parameter
+		for _, b := range g.Blocks {
+			if iff, ok := b.Instrs[len(b.Instrs)-1].(*ssa.If); ok {
+				if cmp, ok := iff.Cond.(*ssa.BinOp); ok && cmp.Op == token.GTR {
+					if _, isLen := affineOf(cmp.X).coef["fld:param:p.Len"]; isLen {
+						if pr, ok := stripConv(cmp.Y).(*ssa.Parameter); ok {
+							clampPrm = pr
+						}
+					}
+				}
+			}
+		}
+		if clampPrm != nil {
+			nOrig := 0
+			seenOrigin := map[string]bool{}
+			for _, l := range p.originLeaves(clampPrm, 6) {
+				nOrig++
+				good := l.Kind == leafFieldLoad && l.Field == "maxTxPacket"
+				what := "?"
+				switch l.Kind {
+				case leafFieldLoad:
+					what = "field " + l.Field
+				case leafCallResult:
+					what = "the result of " + calleeName(l.Call)
+				case leafParam:
+					what = "parameter " + l.Param.Name() + " of " + fnName(l.Param.Parent())
+				case leafConst:
+					what = "a constant"
+				}
+				where, host := "?", "?"
+				if in, ok := l.V.(ssa.Instruction); ok {
+					where, host = p.Pos(in.Pos()), fnName(in.Parent())
+				}
+				k := "the clamp is the server's maxTxPacket: " + what + " in " + host
+				if seenOrigin[k] {
+					continue
+				}
+				seenOrigin[k] = true
+				c.check(good, "R4", k, where, "maxTxPacket field of the server",
+					"getDataSlice is handed "+what+" as the maximum payload: READ replies are cut to a length that has nothing to do with the configured packet size (short DATA replies, which the concurrent client paths take for the end of the file)")
+			}
+			c.check(nOrig >= 2, "R4", "origins of the clamp", p.Pos(g.Pos()), fmt.Sprintf("%d origins", nOrig), fmt.Sprintf("only %d origins of the clamp argument found (both servers expected)", nOrig))
 		}
 		c.check(clamp, "R4", "getDataSlice clamps to maxTxPacket", p.Pos(g.Pos()), "dataLen = min(p.Len, maxTxPacket)", "reads are no longer clamped to the server's maximum payload: a large Len allocates and returns arbitrarily large replies")
 		// every returned slice has a length derived from the clamped value
